@@ -697,3 +697,101 @@ def b_track_header_files(tier, rnd):
             f.read(1)
             cases.append((_mfile(), GhostFile(f)))
     return {"rule": "6 tags (one valid) x 9 chunk sizes incl. extremes, file positioned at offset 1", "cases": cases}
+
+
+# ---------------------------------------------------------------- sequencer (recording subclass = the ghost trace)
+def _rec_sequencer():
+    from mingus.midi.sequencer import Sequencer
+    from contracts import specfuns
+
+    class Rec(Sequencer):
+        def play_event(self, note, channel, velocity):
+            specfuns._TRACE.append(("play_event", note, channel, velocity))
+
+        def stop_event(self, note, channel):
+            specfuns._TRACE.append(("stop_event", note, channel))
+
+        def cc_event(self, channel, control, value):
+            specfuns._TRACE.append(("cc_event", channel, control, value))
+
+        def instr_event(self, channel, instr, bank):
+            specfuns._TRACE.append(("instr_event", channel, instr, bank))
+
+        def sleep(self, seconds):
+            specfuns._TRACE.append(("sleep", seconds))
+
+        def notify_listeners(self, msg_type, params):
+            specfuns._TRACE.append(("notify", msg_type, params))
+    return Rec()
+
+
+@battery("seq_cc")
+def b_seq_cc(tier, rnd):
+    v = (-2, -1, 0, 1, 64, 127, 128, 129, 1000)
+    return {"rule": "channels {0, 9, 15} x control x value over {-2,-1,0,1,64,127,128,129,1000}",
+            "cases": [(_rec_sequencer(), ch, c, x) for ch in (0, 9, 15) for c in v for x in v]}
+
+
+@battery("seq_instr")
+def b_seq_instr(tier, rnd):
+    return {"rule": "channels x programs x banks", "cases": [(_rec_sequencer(), ch, i, b) for ch in (0, 9, 15)
+                                                                for i in (0, 1, 40, 127) for b in (0, 1, 5)]}
+
+
+def _seq_notes():
+    from mingus.containers.note import Note
+    out = []
+    for n in all_names(1):
+        for o in (0, 4, 8):
+            x = Note(n, o)
+            x.channel, x.velocity = (o * 3) % 16, (17 * o + 5) % 128
+            out.append(x)
+    return out
+
+
+@battery("seq_note")
+def b_seq_note(tier, rnd):
+    return {"rule": "Notes (<= 1 accidental x octaves 0,4,8, own channel/velocity) x argument channel/velocity",
+            "cases": [(_rec_sequencer(), n, c, v) for n in _seq_notes() for c in (1, 7) for v in (100, 3)]}
+
+
+@battery("seq_note_stop")
+def b_seq_note_stop(tier, rnd):
+    return {"rule": "Notes (<= 1 accidental x octaves 0,4,8, own channel) x argument channel",
+            "cases": [(_rec_sequencer(), n, c) for n in _seq_notes() for c in (1, 7)]}
+
+
+@battery("seq_cc2")
+def b_seq_cc2(tier, rnd):
+    v = (-2, -1, 0, 1, 64, 127, 128, 129, 1000)
+    return {"rule": "channels {0, 9, 15} x value over {-2,-1,0,1,64,127,128,129,1000}",
+            "cases": [(_rec_sequencer(), ch, x) for ch in (0, 9, 15) for x in v]}
+
+
+def _rec_observer():
+    from mingus.midi.sequencer_observer import SequencerObserver
+    from contracts import specfuns
+    names = ["play_int_note_event", "stop_int_note_event", "cc_event", "instr_event", "sleep", "play_Note", "stop_Note",
+             "play_NoteContainer", "stop_NoteContainer", "play_Bar", "play_Bars", "play_Track", "play_Tracks",
+             "play_Composition"]
+
+    class Rec(SequencerObserver):
+        pass
+    for nm in names:
+        def mk(nm):
+            def f(self, *a):
+                specfuns._TRACE.append(("observer." + nm, self) + tuple(a))
+            return f
+        setattr(Rec, nm, mk(nm))
+    return Rec()
+
+
+@battery("observer_msgs")
+def b_observer_msgs(tier, rnd):
+    keys = ["bank", "bar", "bars", "bpm", "channel", "channels", "composition", "control", "instr", "note", "notes", "s",
+            "track", "tracks", "value", "velocity"]
+    cases = []
+    for m in range(-1, 16):
+        params = dict((k, (i + 1) * 7 + m) for i, k in enumerate(keys))
+        cases.append((_rec_observer(), m, params))
+    return {"rule": "message numbers -1..15 with all parameter keys present and distinct values", "cases": cases}
